@@ -699,7 +699,7 @@ class Summarizer:
             return [s2]
         if name in self.cells:
             if name not in self.cell_sym:
-                self.new_cell(name, canon(vv), s2, node)
+                self.new_cell(name, canon(vv), s2, node, init=vv)
             else:
                 sym = ast.Name(id=self.cell_sym[name], ctx=ast.Load())
                 s2.env[name] = sym
@@ -715,17 +715,17 @@ class Summarizer:
                 n += 1
         return n > 1
 
-    def new_cell(self, name, init_text, st, node):
+    def new_cell(self, name, init_text, st, node, init=None):
         if name in self.cell_sym:
             # re-created (e.g. once per iteration of an enclosing loop, or on another path): same symbol
             sym = ast.Name(id=self.cell_sym[name], ctx=ast.Load())
             st.env[name] = sym
-            self.emit('new', sym.id, st, node)
+            self.emit('new', sym.id, st, node, rhs=init)
             return sym
         self.cell_sym[name] = f'#{len(self.cell_sym) + 1}<{init_text}>'
         sym = ast.Name(id=self.cell_sym[name], ctx=ast.Load())
         st.env[name] = sym
-        self.emit('new', sym.id, st, node)
+        self.emit('new', sym.id, st, node, rhs=init)
         return sym
 
     def bind_target(self, t, vnode, st, node):
@@ -846,7 +846,10 @@ class Summarizer:
                 s2 = st.fork()
                 s2.env[s.target.id] = ast.BinOp(left=clone(cur), op=s.op, right=self.val(s.value, st))
                 return [s2]
-            self.emit_store(self.val(s.target, st), self.val(s.value, st), st, s, kind='aug', op=sym + '=')
+            tgt = self.val(s.target, st)
+            if isinstance(s.target, ast.Name) and s.target.id in st.env:
+                tgt = clone(st.env[s.target.id])
+            self.emit_store(tgt, self.val(s.value, st), st, s, kind='aug', op=sym + '=')
             return [st]
         if isinstance(s, ast.Return):
             if s.value is None:
